@@ -1,6 +1,6 @@
 import vlib
 
-THEORY = ["theories/Mesh/Pure.v", "theories/Mesh/PureLemmas.v", "theories/Mesh/PureProofs.v", "theories/Mesh/Case.v", "theories/Mesh/GenWf.v", "theories/Mesh/GenIdx.v", "theories/Mesh/GenIdxProofs.v"]
+THEORY = ["theories/Mesh/Pure.v", "theories/Mesh/PureLemmas.v", "theories/Mesh/PureProofs.v", "theories/Mesh/Case.v", "theories/Mesh/GenWf.v", "theories/Mesh/GenIdx.v", "theories/Mesh/GenIdxProofs.v", "theories/Mesh/GenCompose.v"]
 
 CFG = {
     "id": "C02", "harness": "c02",
@@ -14,8 +14,8 @@ CFG = {
                   "therefore every history of operations does (run_wf, induction over the history); wf implies every "
                   "accessor stays in range; the primitives' index formulas (sphere, unwelded sphere, hemisphere, cylinder, "
                   "cube; proved in range for every admissible count under C18) and the fan (Circle, Cone) and tube (extrude.polygon) "
-                  "index models of Mesh/GenIdx.v give well-formed meshes for every count (wf_generators_partial, "
-                  "wf_generators_fan_tube; fan/tube index lists are compared with the implementation's on every run). "
+                  "index models of Mesh/GenIdx.v give well-formed meshes for every count (wf_generators_primitives, "
+                  "wf_generators_fan_tube, wf_generators_quad_ribbon_shape, wf_generators_composed; fan/tube index lists are compared with the implementation's on every run). "
                   "The model is tied to the Go code on every run by executing the implementation on random well-formed meshes "
                   "(histories of depth <= 4) and evaluating model = implementation in Coq; the boolean well-formedness test wfb "
                   "(proved equivalent to wf) is applied directly to every mesh the implementation returns, including the output "
